@@ -10,6 +10,7 @@ import concurrent.futures as cf
 import contextlib
 import io
 import itertools
+import json
 import random
 import warnings
 from fractions import Fraction
@@ -55,7 +56,7 @@ def _explore_one(job):
 def explore_jobs(tier):
     def mc(n, me):
         return ("MC_Centrality", {"Kind": "hg", "Node": set(range(1, n + 1)), "ZMin": 1, "ZMax": n, "MaxEdges": me}, MC_INV)
-    return [mc(3, 7), mc(4, 3)] if tier == "quick" else [mc(3, 7), mc(4, 5), mc(5, 2)]
+    return [mc(3, 7), mc(4, 3)] if tier == "quick" else [mc(3, 7), mc(4, 7), mc(5, 3)]
 
 
 # ---------------------------------------------------------------------------
@@ -247,11 +248,11 @@ def judge_eigen(log, val, W, nodes, stats):
                 bad["HEC_eigen_equation"] = ("seed %d: sum over hyperedges of the product of the other scores = lambda_i * c_i^%d with "
                                              "lambda_i/mean-1 up to %.3g; fixed-point residual %.3g" % (r["seed"], m, spread, fp))
         perron.setdefault(name, []).append(c / np.abs(c).sum())
-    # all random starts reach the same vector
+    # all random starts reach the same vector (a statistic: implied by the eigen-equations, not stated)
     for name, lst in perron.items():
         for c in lst[1:]:
             if np.abs(c - lst[0]).max() > 1e-4:
-                bad[name + "_independent_of_start"] = "two starts differ by %.3g" % np.abs(c - lst[0]).max()
+                stats[name + "_starts_disagreeing"] = stats.get(name + "_starts_disagreeing", 0) + 1
                 break
     return bad, {name: lst[0] for name, lst in perron.items()}
 
@@ -337,141 +338,169 @@ def fn_of(clause):
     return clause
 
 
-def run(tier, seed):
-    res = Result("C20", tier, seed, "exploration")
-    rng = random.Random(seed * 3001 + 20)
-    quick = tier == "quick"
-    with cf.ThreadPoolExecutor(max_workers=2) as ex:
-        futs = [ex.submit(_explore_one, j) for j in explore_jobs(tier)]
+ASSUMPTIONS = (
+    "betweenness / closeness values are emitted by TLC as exact rationals of the specification's own line graph and bipartite "
+    "graph (networkx conventions: undirected, normalised; Wasserman-Faust) and compared with the returned floats at 1e-9",
+    "NOT decided by TLA+: the matrix exponential (scipy.linalg.expm on the specification's integer adjacency matrix, 1e-8) and the "
+    "eigen-equation arithmetic of CEC / HEC (numpy on the specification's clique-expansion matrix and hyperedge list)",
+    "CEC: |W c - lambda c| <= 1e-5 lambda_max and lambda = lambda_max(W); HEC: fixed-point residual <= 1e-5 and per-node multiples "
+    "equal within 10 (k-1) 1e-6 / min score (the iteration's own tolerance is 1e-6); runs that print 'did not converge' "
+    "(or CEC on a matrix whose spectral gap cannot converge in 1000 iterations) are counted, not judged",
+    "snapshots of a temporal hypergraph may or may not carry the nodes without hyperedges at that time: both readings accepted",
+    "the index -> node correspondence of the sub-hypergraph centrality vector is the library's own adjacency_matrix(return_mapping=True)",
+    "unweighted hypergraphs; s in 1..3; line graphs of at most 7 hyperedges, bipartite graphs of at most 11 vertices")
 
-        # ---- static hypergraphs: s-centralities, node centralities, sub-hypergraph centrality --------
-        plans = []    # (kind, n, edges, family, eigen_seeds, group)
-        fams = ("ident", "sparse", "str", "strE", "zero")
-        group = 0
-        e3 = [e for z in (1, 2, 3) for e in itertools.combinations((1, 2, 3), z)]
-        masks = list(range(1 << len(e3)))
-        for mask in (rng.sample(masks, 40) if quick else masks):
-            es = [e3[j] for j in range(len(e3)) if mask >> j & 1]
-            plans.append((3, es, fams[group % 5], (), group))
-            group += 1
-        for i in range(200 if quick else 1200):
-            n = rng.choice([4, 5, 5, 6, 6, 7])
-            es = rand_edges(rng, n, min(7, 11 - n), 5)
-            # the same abstract hypergraph under two label maps: a relabelling event
-            f1, f2 = rng.sample(fams, 2)
-            plans.append((n, es, f1, (), group))
-            plans.append((n, es, f2, (), group))
-            group += 1
-        # connected 3- and 4-uniform hypergraphs labelled 0..N-1, and a relabelled twin (a permutation of 0..N-1)
-        nstarts = 4 if quick else 12
-        for i in range(60 if quick else 300):
-            k = 3 if i % 2 == 0 else 4
-            n = rng.choice([4, 5, 6, 7] if k == 3 else [5, 6, 7])
-            es = rand_uniform_connected(rng, n, k)
-            seeds = tuple((seed * 97 + i * 131 + j) % (2 ** 31) for j in range(nstarts))
-            plans.append((n, es, "zero", seeds, group))
-            plans.append((n, es, "zero-perm", seeds[:2], group))
-            group += 1
-        cases, logs, descr = [], [], []
-        for (n, es, fam, eseeds, g) in plans:
-            if fam == "zero-perm":
-                labels = list(range(n))
-                rng.shuffle(labels)
-            else:
-                labels = FAMILIES[fam](n)
+
+# ---------------------------------------------------------------------------
+# static hypergraphs.  spec = {kind: "static", n, edges, labelings: [labels, ...], extra, eigen_seeds: [[..], ..], case_seed}
+# several labelings of one abstract hypergraph = a relabelling event
+def static_specs(tier, seed, rng):
+    quick = tier == "quick"
+    specs = []
+    fams = ("ident", "sparse", "str", "strE", "zero")
+
+    def add(n, es, labelings, eigen_seeds=None):
+        i = len(specs)
+        specs.append({"kind": "static", "n": n, "edges": [list(e) for e in es], "labelings": labelings,
+                      "extra": bool(i % 3 == 0 or eigen_seeds), "eigen_seeds": eigen_seeds or [[] for _ in labelings],
+                      "case_seed": seed * 1000211 + i})
+    e3 = [e for z in (1, 2, 3) for e in itertools.combinations((1, 2, 3), z)]
+    masks = list(range(1 << len(e3)))
+    for j, mask in enumerate(rng.sample(masks, 40) if quick else masks):
+        add(3, [e3[x] for x in range(len(e3)) if mask >> x & 1], [FAMILIES[fams[j % 5]](3)])
+    for i in range(400 if quick else 6000):
+        n = rng.choice([4, 5, 5, 6, 6, 7])
+        f1, f2 = rng.sample(fams, 2)
+        add(n, rand_edges(rng, n, min(7, 11 - n), 5), [FAMILIES[f1](n), FAMILIES[f2](n)])
+    # connected 3- and 4-uniform hypergraphs labelled 0..N-1, and a relabelled twin (a permutation of 0..N-1)
+    nstarts = 4 if quick else 12
+    for i in range(100 if quick else 1000):
+        k = 3 if i % 2 == 0 else 4
+        n = rng.choice([4, 5, 6, 7] if k == 3 else [5, 6, 7])
+        seeds = [(seed * 97 + i * 131 + j) % (2 ** 31) for j in range(nstarts)]
+        perm = list(range(n))
+        rng.shuffle(perm)
+        add(n, rand_uniform_connected(rng, n, k), [list(range(n)), perm], [seeds, seeds[:2]])
+    return specs
+
+
+def static_validate(res, specs, stats, procs=8):
+    cases, logs, descr = [], [], []
+    for si, sp in enumerate(specs):
+        rng = random.Random(sp["case_seed"])
+        for labels, eseeds in zip(sp["labelings"], sp["eigen_seeds"]):
             b = Binding("hg", labels, rng)
-            extra = tuple(range(1, n + 1)) if (g % 3 == 0 or eseeds) else ()
-            obj = build_static(b, es, rng, extra_nodes=extra)
-            big = len(es) + n > 11
+            obj = build_static(b, [tuple(e) for e in sp["edges"]], rng,
+                               extra_nodes=tuple(range(1, sp["n"] + 1)) if sp["extra"] else ())
             c, log = observe_static(b, obj, (1, 2, 3), eseeds)
             cases.append(c)
             logs.append(log)
-            descr.append({"n": n, "hyperedges": [list(e) for e in es], "labels": labels, "family": fam, "group": g,
-                          "eigen_seeds": list(eseeds), "all_nodes_added": bool(extra)})
-        v = O.run_oracle("Oracle_C20", cases, {"Kind": "hg"}, procs=8)
-        tl = dict(v["rejects"])
-        stats = {}
-        per_group = {}
-        nrej = 0
-        for i, (log, val) in enumerate(zip(logs, v["values"])):
-            failed = keys_named(tl.get(i, []), cases[i], val["edges"], [val["nodes"]])
-            bad, W, nodes = judge_static(log, val)
+            descr.append({"n": sp["n"], "hyperedges": sp["edges"], "labels": labels, "all_nodes_added": sp["extra"], "spec": si})
+    v = O.run_oracle("Oracle_C20", cases, {"Kind": "hg"}, procs=procs)
+    tl = dict(v["rejects"])
+    per_spec = {}
+    nrej = 0
+    for i, (log, val) in enumerate(zip(logs, v["values"])):
+        failed = keys_named(tl.get(i, []), cases[i], val["edges"], [val["nodes"]])
+        bad, W, nodes = judge_static(log, val)
+        failed.update(bad)
+        eig = {}
+        if "eig" in log:
+            if not (val["uniform"] in (3, 4) and val["connected"] and val["zero_based"]):
+                raise tlc.TLCError("C20: harness built an input outside the CEC/HEC scope: %s" % descr[i])
+            bad, eig = judge_eigen(log, val, W, nodes, stats)
             failed.update(bad)
-            eig = {}
-            if "eig" in log:
-                if not (val["uniform"] in (3, 4) and val["connected"] and val["zero_based"]):
-                    raise tlc.TLCError("C20: harness built an input outside the CEC/HEC scope: %s" % descr[i])
-                bad, eig = judge_eigen(log, val, W, nodes, stats)
-                failed.update(bad)
-            per_group.setdefault(descr[i]["group"], []).append((i, log, eig, nodes))
-            if failed:
-                nrej += 1
-                report(res, descr[i], failed, log)
-        # relabelling events: the same abstract hypergraph under two label maps
-        nrel = 0
-        for g, lst in per_group.items():
-            if len(lst) < 2:
-                continue
-            (i1, l1, e1, nodes), (i2, l2, e2, _) = lst[0], lst[1]
-            failed = {}
-            for r1 in l1["edge"] + l1["node"]:
-                for r2 in l2["edge"] + l2["node"]:
-                    if r1["fn"] == r2["fn"] and r1.get("s") == r2.get("s"):
-                        for k_, x in r1["values"].items():
-                            if k_ in r2["values"] and not abs(x - r2["values"][k_]) <= 2 * TOL:
-                                failed[r1["fn"] + "_carried_by_relabelling"] = "%s: %r under %s, %r under %s" % (
-                                    k_, x, descr[i1]["labels"], r2["values"][k_], descr[i2]["labels"])
-            if "shc" in l1 and "shc" in l2:
-                for k_, x in l1["shc"]["values"].items():
-                    y = l2["shc"]["values"].get(k_)
-                    if y is not None and not abs(x - y) <= 1e-8 * max(1.0, abs(x)):
-                        failed["subhypergraph_centrality_carried_by_relabelling"] = "node %s: %r vs %r" % (k_, x, y)
-            for name in e1:
-                if name in e2 and np.abs(e1[name] - e2[name]).max() > 1e-4:
-                    failed[name + "_carried_by_relabelling"] = "scores differ by %.3g between labels %s and %s" % (
-                        np.abs(e1[name] - e2[name]).max(), descr[i1]["labels"], descr[i2]["labels"])
-            nrel += 1
-            if failed:
-                nrej += 1
-                report(res, descr[i2], failed, l2)
+        per_spec.setdefault(descr[i]["spec"], []).append((i, log, eig))
+        if failed:
+            nrej += 1
+            report(res, descr[i], specs[descr[i]["spec"]], failed, log)
+    # relabelling events: the same abstract hypergraph under two label maps
+    nrel = 0
+    for si, lst in per_spec.items():
+        if len(lst) < 2:
+            continue
+        (i1, l1, e1), (i2, l2, e2) = lst[0], lst[1]
+        failed = {}
+        for r1 in l1["edge"] + l1["node"]:
+            for r2 in l2["edge"] + l2["node"]:
+                if r1["fn"] == r2["fn"] and r1.get("s") == r2.get("s"):
+                    for k_, x in r1["values"].items():
+                        if k_ in r2["values"] and not abs(x - r2["values"][k_]) <= 2 * TOL:
+                            failed[r1["fn"] + "_carried_by_relabelling"] = "%s: %r under %s, %r under %s" % (
+                                k_, x, descr[i1]["labels"], r2["values"][k_], descr[i2]["labels"])
+        if "shc" in l1 and "shc" in l2:
+            for k_, x in l1["shc"]["values"].items():
+                y = l2["shc"]["values"].get(k_)
+                if y is not None and not abs(x - y) <= 1e-8 * max(1.0, abs(x)):
+                    failed["subhypergraph_centrality_carried_by_relabelling"] = "node %s: %r vs %r" % (k_, x, y)
+        for name in e1:
+            if name in e2 and np.abs(e1[name] - e2[name]).max() > 1e-4:
+                failed[name + "_carried_by_relabelling"] = "scores differ by %.3g between labels %s and %s" % (
+                    np.abs(e1[name] - e2[name]).max(), descr[i1]["labels"], descr[i2]["labels"])
+        nrel += 1
+        if failed:
+            nrej += 1
+            report(res, descr[i2], specs[si], failed, l2)
+    return cases, logs, descr, v, nrej, nrel
 
-        # ---- temporal hypergraphs: averaged versions ------------------------------------------------
-        tplans = []
-        tf = ("ident", "sparse", "str", "strE", "zero")
-        for i in range(200 if quick else 1000):
-            n = rng.choice([3, 4, 4, 5, 5, 6])
-            times = rng.sample([0, 1, 2, 3, 5, 9], rng.randint(1, 3))
-            te = set()
-            for tm in times:
-                for e in rand_edges(rng, n, min(5, 10 - n), 4) or [tuple(sorted(rng.sample(range(1, n + 1), 2)))]:
-                    te.add((tm, e))
-            # the same hyperedge at several times: its values add up
-            if rng.random() < 0.5 and len(times) > 1:
-                tm0, e0 = rng.choice(sorted(te))
-                te.add((rng.choice(times), e0))
-            tplans.append((n, sorted(te), tf[i % 5]))
-        tcases, tlogs, tdescr = [], [], []
-        for (n, te, fam) in tplans:
-            b = Binding("temp", FAMILIES[fam](n), rng)
-            obj = build_temporal(b, te, rng)
-            c, log = observe_temporal(b, obj, (1, 2) if quick else (1, 2, 3))
-            tcases.append(c)
-            tlogs.append(log)
-            tdescr.append({"n": n, "timed_hyperedges": [[tm, list(e)] for tm, e in te], "labels": b.labels, "family": fam,
-                           "temporal": True})
-        tv = O.run_oracle("Oracle_C20", tcases, {"Kind": "temp"}, procs=8)
-        ttl = dict(tv["rejects"])
-        for i, (log, val) in enumerate(zip(tlogs, tv["values"])):
-            failed = keys_named(ttl.get(i, []), tcases[i], val["alive"], [val["touched"], val["nodes"]])
-            failed.update(judge_temporal(log, val))
-            if failed:
-                nrej += 1
-                report(res, tdescr[i], failed, log)
+
+# ---------------------------------------------------------------------------
+# temporal hypergraphs.  spec = {kind: "temporal", n, timed_edges: [[t, [nodes]]], labels, ss, case_seed}
+def temporal_specs(tier, seed, rng):
+    quick = tier == "quick"
+    specs = []
+    tf = ("ident", "sparse", "str", "strE", "zero")
+    for i in range(400 if quick else 6000):
+        n = rng.choice([3, 4, 4, 5, 5, 6])
+        times = rng.sample([0, 1, 2, 3, 5, 9], rng.randint(1, 3))
+        te = set()
+        for tm in times:
+            for e in rand_edges(rng, n, min(5, 10 - n), 4) or [tuple(sorted(rng.sample(range(1, n + 1), 2)))]:
+                te.add((tm, e))
+        # the same hyperedge at several times: its values add up
+        if rng.random() < 0.5 and len(times) > 1:
+            tm0, e0 = rng.choice(sorted(te))
+            te.add((rng.choice(times), e0))
+        specs.append({"kind": "temporal", "n": n, "timed_edges": [[tm, list(e)] for tm, e in sorted(te)],
+                      "labels": FAMILIES[tf[i % 5]](n), "ss": [1, 2] if quick else [1, 2, 3], "case_seed": seed * 1000303 + i})
+    return specs
+
+
+def temporal_validate(res, specs, procs=8):
+    cases, logs, descr = [], [], []
+    for sp in specs:
+        rng = random.Random(sp["case_seed"])
+        b = Binding("temp", sp["labels"], rng)
+        obj = build_temporal(b, [(tm, tuple(e)) for tm, e in sp["timed_edges"]], rng)
+        c, log = observe_temporal(b, obj, sp["ss"])
+        cases.append(c)
+        logs.append(log)
+        descr.append({"n": sp["n"], "timed_hyperedges": sp["timed_edges"], "labels": sp["labels"], "temporal": True})
+    v = O.run_oracle("Oracle_C20", cases, {"Kind": "temp"}, procs=procs)
+    tl = dict(v["rejects"])
+    nrej = 0
+    for i, (log, val) in enumerate(zip(logs, v["values"])):
+        failed = keys_named(tl.get(i, []), cases[i], val["alive"], [val["touched"], val["nodes"]])
+        failed.update(judge_temporal(log, val))
+        if failed:
+            nrej += 1
+            report(res, descr[i], specs[i], failed, log)
+    return cases, logs, descr, v, nrej
+
+
+def run(tier, seed):
+    res = Result("C20", tier, seed, "exploration")
+    rng = random.Random(seed * 3001 + 20)
+    stats = {"CEC_runs": 0, "HEC_runs": 0, "CEC_not_converged": 0, "HEC_not_converged": 0}
+    with cf.ThreadPoolExecutor(max_workers=2) as ex:
+        futs = [ex.submit(_explore_one, j) for j in explore_jobs(tier)]
+        cases, logs, descr, v, nrej, nrel = static_validate(res, static_specs(tier, seed, rng), stats)
+        tcases, tlogs, tdescr, tv, tnrej = temporal_validate(res, temporal_specs(tier, seed, rng))
         runs = [f.result() for f in futs]
     res.cov(states=sum(r["states"] for r in runs), transitions=sum(r["transitions"] for r in runs))
     res.coverage["explorations"] = runs
     res.coverage["invariants"] = MC_INV
-    res.cov(static_hypergraphs=len(cases), temporal_hypergraphs=len(tcases), relabelling_events=nrel, rejected_cases=nrej,
+    res.cov(static_hypergraphs=len(cases), temporal_hypergraphs=len(tcases), relabelling_events=nrel, rejected_cases=nrej + tnrej,
             s_centrality_dicts_compared=sum(len(l["edge"]) + len(l["node"]) for l in logs + tlogs),
             values_compared=sum(len(r["values"]) for l in logs + tlogs for r in l["edge"] + l["node"]),
             subhypergraph_centrality_vectors=sum(1 for l in logs if "shc" in l),
@@ -481,18 +510,24 @@ def run(tier, seed):
     if tcases:
         res.sample({"case": tdescr[-1], "spec_averaged_closeness_s1": tv["values"][-1]["by_s"][0]["close"], "returned": plain(tlogs[-1]["edge"][:2]),
                     "errors": tlogs[-1]["errors"]})
-    res.assume(
-        "betweenness / closeness values are emitted by TLC as exact rationals of the specification's own line graph and bipartite "
-        "graph (networkx conventions: undirected, normalised; Wasserman-Faust) and compared with the returned floats at 1e-9",
-        "NOT decided by TLA+: the matrix exponential (scipy.linalg.expm on the specification's integer adjacency matrix, 1e-8) and the "
-        "eigen-equation arithmetic of CEC / HEC (numpy on the specification's clique-expansion matrix and hyperedge list)",
-        "CEC: |W c - lambda c| <= 1e-5 lambda_max and lambda = lambda_max(W); HEC: fixed-point residual <= 1e-5 and per-node multiples "
-        "equal within 10 (k-1) 1e-6 / min score (the iteration's own tolerance is 1e-6); runs that print 'did not converge' "
-        "(or CEC on a matrix whose spectral gap cannot converge in 1000 iterations) are counted, not judged",
-        "snapshots of a temporal hypergraph may or may not carry the nodes without hyperedges at that time: both readings accepted",
-        "the index -> node correspondence of the sub-hypergraph centrality vector is the library's own adjacency_matrix(return_mapping=True)",
-        "unweighted hypergraphs; s in 1..3; line graphs of at most 7 hyperedges, bipartite graphs of at most 11 vertices")
+    res.assume(*ASSUMPTIONS)
     return res.finish()
+
+
+def replay(path):
+    """re-execute the one case (all its labelings) of a replay file and validate it again"""
+    with open(path) as f:
+        rp = json.load(f)
+    sp = rp["payload"]["spec"]
+    res = Result("C20", "replay", rp.get("seed", 0), "exploration")
+    if sp["kind"] == "static":
+        static_validate(res, [sp], {}, procs=1)
+    else:
+        temporal_validate(res, [sp], procs=1)
+    for r in res.rejections:
+        print("VIOLATION property=C20 replay=%s\n  what: %s" % (path, r["what"]))
+    print("C20 replay %s" % ("FAIL" if res.rejections else "PASS"))
+    return 1 if res.rejections else 0
 
 
 def keys_named(tlc_failed, case, edges, node_sets):
@@ -514,15 +549,15 @@ def keys_named(tlc_failed, case, edges, node_sets):
     return out
 
 
-def report(res, d, failed, log):
+def report(res, d, spec, failed, log):
     fns = sorted({fn_of(f) for f in failed})
     labels = d["labels"]
     lt = "int" if all(isinstance(x, int) for x in labels) else "str"
     hasE = any(isinstance(x, str) and "E" in x for x in labels)
     res.reject({"function": fns if len(fns) > 1 else fns[0], "clauses": sorted(failed), "labels": lt, "labels_contain_E": hasE},
                "%s on %s" % ("; ".join("%s [%s]" % (k, x) for k, x in sorted(failed.items())),
-                             {k: x for k, x in d.items() if k not in ("group", "eigen_seeds")}),
-               {"case": d, "failed": failed, "errors": log.get("errors"),
+                             {k: x for k, x in d.items() if k != "spec"}),
+               {"spec": spec, "case": d, "failed": failed, "errors": log.get("errors"),
                 "returned": plain(log.get("edge", []) + log.get("node", []))})
 
 
